@@ -58,6 +58,7 @@ USES = {
     "prop": ["print(L.R().val)"],
     "del_redefine": ["print(L.tmp)"],
     "const_repeat": ["print(L.A1, L.A5)"],
+    "attr_twin": ["print(L.path, L.sep)", "print(L.path)"],
 }
 LIBNAME = "vk_lib"
 CLIENT_PRELUDE = "TAPE = [%s]\n\n\ndef inp():\n    return TAPE.pop() %% 7 - 3\n\n\n"
@@ -154,13 +155,17 @@ def transform_lib(lib_text, client_text, path, passes, layout="flat"):
 
     main = importlib.import_module("pyrefact.main")
     with tempfile.TemporaryDirectory() as d:
-        # file layouts: flat (one folder); twotrees (library src/pkg/<lib>.py, client tests/pkg/<lib>.py: same tail in
+        # file layouts: flat (one folder); wholepkg (library and client in one folder that is formatted and preserved
+        # as a whole); twotrees (library src/pkg/<lib>.py, client tests/pkg/<lib>.py: same tail in
         # two trees); twoclients (a second preserved client with the same dir/file tail as the first, using nothing)
         extra_clients = []
         if layout == "flat":
             lp, cp = os.path.join(d, LIBNAME + ".py"), os.path.join(d, "client.py")
         elif layout == "twotrees":
             lp, cp = os.path.join(d, "src", "pkg", LIBNAME + ".py"), os.path.join(d, "tests", "pkg", LIBNAME + ".py")
+        elif layout == "wholepkg":
+            # the whole folder is formatted and the whole folder is preserved (`pyrefact pkg/ --preserve pkg/`)
+            lp, cp = os.path.join(d, "pkg", LIBNAME + ".py"), os.path.join(d, "pkg", "client.py")
         else:
             lp, cp = os.path.join(d, "lib", LIBNAME + ".py"), os.path.join(d, "svc_a", "checks", "smoke.py")
             extra_clients = [os.path.join(d, "svc_b", "checks", "smoke.py")]
@@ -183,7 +188,10 @@ def transform_lib(lib_text, client_text, path, passes, layout="flat"):
         main.mp = _inline_pool()
         try:
             with contextlib.redirect_stdout(io.StringIO()), contextlib.redirect_stderr(io.StringIO()):
-                main.main([lp, "--preserve", cp, *extra_clients, "--n_cores", "1"])
+                if layout == "wholepkg":
+                    main.main([os.path.dirname(lp), "--preserve", os.path.dirname(lp), "--n_cores", "1"])
+                else:
+                    main.main([lp, "--preserve", cp, *extra_clients, "--n_cores", "1"])
         finally:
             main.mp = saved
         with open(lp) as f:
@@ -277,7 +285,7 @@ def obligations(tier, seed):
         for path, passes in variants:
             lays[(path, passes)] = "flat"
         if ("cli", 1) in lays:
-            variants += [("cli:twotrees", 1), ("cli:twoclients", 1)]
+            variants += [("cli:twotrees", 1), ("cli:twoclients", 1), ("cli:wholepkg", 1)]
         for path, passes in variants:
             layout = "flat"
             if ":" in path:
